@@ -54,14 +54,17 @@ CLAIMS["C10"] = (
     "Solver verdict that retry_on_timeout makes exactly min(first non-timeout attempt, r+1) attempts and returns the "
     "first non-timeout outcome (or the last timeout) for every outcome vector and r in 0..=3 and the two largest r; and "
     "that every retrying protocol entry point sends exactly r+1 identical requests to a silent server, retries a timed-out "
-    "send, and never retries a malformed reply. Fault vectors are the symbolic input: exactly the quantifier of the property.",
-    "Trusted: hooks H1-H3 (net model: silence = receive timeout, injectable send faults). Outside: outcome vectors with a "
-    "valid reply at protocol level, r > 2 at protocol level.",
+    "send, and never retries a malformed reply; that a Valve request unit answered after k timeouts returns exactly the "
+    "fault-free payload (symbolic) after k+1 requests iff k <= r; that a lost later fragment / an unanswered second request "
+    "of an exchange is retried too. Fault vectors are the symbolic input: exactly the quantifier of the property.",
+    "Trusted: hooks H1-H3 (net model: silence = receive timeout, injectable send faults). Outside: valid-after-timeout "
+    "vectors for protocols other than Valve and GameSpy 3, r > 2 at protocol level.",
     "DESIGN.md §4 C10")
 CLAIMS["C18"] = (
     "Solver verdict that TimeoutSettings::new rejects exactly the zero durations (all Durations, all retry counts), and "
     "that socket set-up, the retry helper and every listed query entry point never panic for any field values the "
-    "derived Deserialize/clap code can produce (zero, 1 ns, u64::MAX s, usize::MAX retries).",
+    "derived Deserialize/clap code can produce (zero, 1 ns, u64::MAX s), and that the largest retry counts (usize::MAX-1, "
+    "usize::MAX) go through every retrying entry point against an answering server without overflow.",
     "Trusted: hooks H3/H5. NOT claimed: the Deserialize / clap construction paths themselves (derive macros and clap's "
     "parser are not encoded) - they accept zero durations, recorded as open known finding K1.",
     "DESIGN.md §4 C18")
@@ -102,7 +105,8 @@ CLAIMS["C03"] = (
     "Solver verdict (a) over all 32 subsets of variants a server may speak that the auto-detecting queries try Java, "
     "Bedrock, 1.6, 1.4, b1.8 in that order up to the first that answers, label the response with it and fail with "
     "AutoQuery iff none answers; (b) that Bedrock pongs (6-9 fields) and legacy 1.6/1.4/b1.8 kick packets decode to exactly "
-    "the encoded status and that a corrupted header byte (any value) is rejected with the stated error kind.",
+    "the encoded status and that a corrupted header byte (any value) is rejected with the stated error kind; (c) that the "
+    "legacy 1.6 marker is detected for exactly its six bytes, for every 8-byte kick-packet body.",
     "Trusted: hooks H3/H5, listed stubs. NOT claimed: the Java JSON -> JavaResponse extraction (serde_json over symbolic "
     "text); status texts are concrete.",
     "DESIGN.md §4 C03")
@@ -154,7 +158,8 @@ CLAIMS["C01"] = (
 
 CLAIMS["C13"] = (
     "Solver verdict, with the size operand fully symbolic at each anchor site, that pre-sized allocations whose size comes "
-    "from a reply field request at most 16 MiB (Minecraft string length, GameSpy 1 maxplayers, Valve player count); the "
+    "from a reply field request at most 16 MiB (Minecraft string length, GameSpy 1 maxplayers with an extreme numplayers, Valve "
+    "player count, Unreal 2 player count announced in the info reply); the "
     "Valve decompressed-size site violates it and is an open known finding. Partial claim: per-request bound only.",
     "Trusted: size-asserting stubs for Vec::with_capacity / vec![x;n]. NOT claimed: the 64 MiB live total, growth by "
     "push/extend, sites listed under bounds.outside.",
@@ -162,7 +167,8 @@ CLAIMS["C13"] = (
 
 CLAIMS["C08"] = (
     "Solver verdict, for every score value, that a Valve split reply (Source and GoldSrc headers, 2-3 fragments) decodes to "
-    "the in-order result under each listed arrival order and that a duplicated fragment never yields a different "
+    "the in-order result under each listed arrival order, that three equal-sized fragments reassemble in packet-number "
+    "order for every permutation of their numbers and every payload (one query), and that a duplicated fragment never yields a different "
     "successful response; GameSpy 3 and Unreal 2 order dependence is decided too and reported as open known findings.",
     "Trusted: hooks H3-H5. Arrival orders are concrete instances (all 6 orders of 3 fragments in the thorough tier).",
     "DESIGN.md §4 C08")
